@@ -6,6 +6,8 @@ import Driver.EnumD
 import Driver.Json
 import Driver.TimeD
 import Driver.Ops
+import Driver.Typing
+import Driver.Grpc
 /- line protocol: one request per line on stdin, one reply per line on stdout -/
 open Drv
 
@@ -18,6 +20,8 @@ structure AllSt where
   json : JsonSt := {}
   timed : TimeDSt := {}
   ops : OpsSt := {}
+  typing : TypingSt := {}
+  grpc : GrpcSt := {}
 
 def step (st : AllSt) (line : String) : AllSt × String :=
   let toks := (line.splitOn " ").filter (· != "")
@@ -44,6 +48,12 @@ def step (st : AllSt) (line : String) : AllSt × String :=
   | none =>
   match handleOps st.ops st.wire toks with
   | some (s, r) => ({ st with ops := s }, r)
+  | none =>
+  match handleTyping st.typing toks with
+  | some (s, r) => ({ st with typing := s }, r)
+  | none =>
+  match handleGrpc st.grpc toks with
+  | some (s, r) => ({ st with grpc := s }, r)
   | none => (st, "bad-op")
 
 partial def loop (h : IO.FS.Stream) (out : IO.FS.Stream) (st : AllSt) : IO Unit := do
